@@ -428,6 +428,22 @@ static void region_case(Builder& B, uint64_t e, const std::string& gid, Polygon*
             return;
         }
     ld tol = B.tol;
+    // precondition: the spine never curves tighter than twice the lateral reach of the elements (inside that
+    // radius the displaced curve has cusps and "within half the width of the centre curve" is ambiguous)
+    for (uint64_t s = 0; s < rp.subpath_array.count; s++)
+        for (int i = 0; i <= 64; i++) {
+            ld u = (ld)i / 64, hh = 1e-4L;
+            ld ua = u - hh < 0 ? 0 : u - hh, ub = u + hh > 1 ? 1 : u + hh;
+            V d1 = sec_deriv(rp.subpath_array[s], u);
+            V d2 = (sec_deriv(rp.subpath_array[s], ub) - sec_deriv(rp.subpath_array[s], ua)) * (1 / (ub - ua));
+            ld sp = lenl(d1);
+            if (sp <= 0) continue;
+            ld kappa = fabsl(crossl(d1, d2)) / (sp * sp * sp);
+            if (kappa * 2 * (ld)B.Wmax > 1) {
+                em.T("region-skipped-tight-curvature");
+                return;
+            }
+        }
     CentreCurve C = centre_curve(rp, rp.elements[e], B.corner, tol / 8);
     ld tolc = 4 * tol + 1e-6L, tolf = 4 * tol + 1e-6L;
     ld reach = (1 / cosl(C.theta_max / 2)) * (1 + C.slope_max);
